@@ -63,6 +63,7 @@ class SimpleCloudsContribution(Contribution):
         cloud_filtr = model.pressureProfile >= self._cloud_pressure
         contrib[cloud_filtr, :] = np.inf
         self._contrib = contrib
+        self.sigma_xsec = self._contrib
         yield 'Clouds', self._contrib
 
     @fitparam(param_name='clouds_pressure',
